@@ -175,4 +175,53 @@ theorem totalCount_filter_le {V : Type} (l : List (V × Nat)) (p : V × Nat → 
     simp only [List.filter_cons]
     split <;> simp only [totalCount, List.map_cons, List.sum_cons] at ih ⊢ <;> omega
 
+/-! ### signature, qubit map, zfill -/
+
+theorem translateArguments_tys (sig : List (String × QTy)) :
+    (translateArguments sig).map (·.ty) = sig.map (·.2) := by
+  simp [translateArguments, translateArgument]
+
+theorem addQubits_numQubits (m : QMap) (ns : List Name) :
+    (m.addQubits ns).numQubits = m.numQubits + ns.length := by
+  induction ns generalizing m with
+  | nil => rfl
+  | cons n r ih => simp only [QMap.addQubits, List.foldl_cons] at ih ⊢; rw [ih]; simp [QMap.addQubit]; omega
+
+theorem addQubits_get_other (m : QMap) (ns : List Name) (k : Name) (h : k ∉ ns) :
+    (m.addQubits ns).get k = m.get k := by
+  induction ns generalizing m with
+  | nil => rfl
+  | cons n r ih =>
+    simp only [QMap.addQubits, List.foldl_cons] at ih ⊢
+    rw [ih _ (fun hk => h (List.mem_cons_of_mem _ hk))]
+    simp only [QMap.get, QMap.addQubit, dictGet_dictSet]
+    rw [if_neg]; intro e; exact h (by simp [e])
+
+theorem zfill_binDigits {n m : Nat} (hm : 0 < m) (h : n < 2 ^ m) :
+    (zfill m (binDigits n)).map (· == '1') = (toBitsLE m n).reverse := by
+  have hlen : (binDigits n).length ≤ m := by
+    rw [binDigits_length]; split
+    · omega
+    · exact bitsLE_length_le h
+  have := binToBoolList_pyBin_reverse h
+  rw [← this, List.reverse_reverse]
+  unfold binToBoolList zfill
+  simp only [strip0b_pyBin, Option.getD_some, List.take_of_length_le hlen, List.length_map,
+    List.map_append, List.map_replicate]
+  rfl
+
+theorem steps_get (steps : List (Name × Nat)) (m : QMap) (k : Name) :
+    ((steps.foldl (fun m s => m.mapQubit s.1 s.2) m).get k).isSome
+      ↔ (m.get k).isSome ∨ k ∈ steps.map (·.1) := by
+  induction steps generalizing m with
+  | nil => simp
+  | cons s r ih =>
+    simp only [List.foldl_cons, ih, List.map_cons, List.mem_cons]
+    simp only [QMap.get, QMap.mapQubit, dictGet_dictSet]
+    by_cases hk : s.1 = k
+    · simp [hk]
+    · simp [hk]; constructor
+      · rintro (h | h); exact Or.inl h; exact Or.inr (Or.inr h)
+      · rintro (h | h | h); exact Or.inl h; exact absurd h.symm hk; exact Or.inr h
+
 end QV.Codec
